@@ -383,6 +383,15 @@ func (c *c14Ctx) replayLine(fx func() []*c14Fixture, line string, pool func() *c
 		if len(w) == 3 {
 			c.opSD([]byte(unhx(w[1])), []byte(unhx(w[2])))
 		}
+	case "rw":
+		if len(w) == 2 {
+			c.opRW(w[1])
+		}
+	case "ic":
+		if len(w) == 6 {
+			vm, _ := strconv.ParseUint(w[1], 10, 64)
+			c.opIC(vm, at(2), at(3), at(4), at(5))
+		}
 	case "gr":
 		if len(w) == 2 {
 			c.opGR(strings.Trim(w[1], "-"))
